@@ -160,8 +160,10 @@ func (s *Sequencer) GetNextBatch(ctx context.Context, req coresequencer.GetNextB
 			nextDAHeight = lastDAHeight + 1
 		}
 	}
+	// Only look at newer DA heights once the carry-over queue is drained: a transaction that did not
+	// fit has to be released before anything that comes after it on the DA layer.
 OuterLoop:
-	for size < maxBytes {
+	for size < maxBytes && s.pendingTxs.Len() == 0 {
 		// if we have exceeded maxHeightDrift, stop fetching more transactions
 		if nextDAHeight > lastDAHeight+s.maxHeightDrift {
 			s.logger.Debug("exceeded max height drift, stopping fetching more transactions")
@@ -181,9 +183,12 @@ OuterLoop:
 		} else if res.Code == coreda.StatusSuccess {
 			for i, tx := range res.Data {
 				txSize := uint64(len(tx))
-				if size+txSize >= maxBytes {
-					// Push remaining transactions back to the queue
+				if size+txSize > maxBytes { // same test as PopUpToMaxBytes: a transaction that fits exactly is taken
+					// Push remaining transactions back to the queue. The rest of this height now lives in
+					// the queue, so the scan position moves past it; otherwise the height is fetched again
+					// by the next call and its transactions are released twice.
 					s.pendingTxs.Push(res.Data[i:], res.IDs[i:], res.Timestamp)
+					nextDAHeight++
 					break OuterLoop
 				}
 				resp.Batch.Transactions = append(resp.Batch.Transactions, tx)
